@@ -515,4 +515,51 @@ theorem verifyPriority_accepts_zero_seats :
     simp only [idVrf, h0, (choose_ends _ _ _).2]
     decide
 
+/-! ## 7. the node-level verifiers (`Server.verifyPriority`, `Server.verifySortition`)
+
+`Server.verifyPriority` is modelled AFTER the repair of finding F-C04a (it used to return `VrfVerifyPriority`'s nil error
+on a priority mismatch, i.e. accept a forged priority; witness kept in corpus/C04). `Server.verifySortition` is modelled
+as it exists: lenient for messages older than the node's own position (open finding F-C04b). -/
+
+/-- the node accepts a proposer priority only if `VrfVerifyPriority` accepts it — hence only the largest seat hash of a
+    credential that verifies for this key, seed, round index, step and seat count (`verified_priority_is_max`). -/
+theorem server_verifyPriority_binds {SK PK Proof Rand : Type} (V : Vrf SK PK Proof Rand) (cdf : F64 → Nat → F64)
+    (K : List UInt8 → List UInt8) (pk : PK) (seed : List UInt8) (index role : Nat) (proof : Proof)
+    (priority : List UInt8) (sub : Nat) (s : Stakes)
+    (h : serverVerifyPriority V cdf K pk seed index role proof priority sub s = .accept) :
+    verifyPriority V cdf K pk seed index role proof priority sub s = .accept := by
+  unfold serverVerifyPriority at h
+  cases hv : verifyPriority V cdf K pk seed index role proof priority sub s <;> simp [hv, nodePriorityOutcome] at h ⊢
+
+/-- full statement for votes: the node accepts a vote credential only if `VrfVerifySortition` accepts it.
+    FALSE of the code that exists, see `server_verifySortition_lenient_counterexample`. -/
+def server_verifySortition_binds_statement : Prop :=
+  ∀ (V : Vrf Unit Unit (List UInt8) Unit) (cdf : F64 → Nat → F64) (ctx : NodeCtx) (msgRound : Nat)
+    (seed : List UInt8) (index role : Nat) (proof : List UInt8) (sub : Nat) (s : Stakes),
+    serverVerifySortition V cdf ctx msgRound () seed index role proof sub s = .accept →
+    verifySortition V cdf () seed index role proof sub s = .accept
+
+/-- proved part: for a message at or after the node's own (round, index) the node accepts only what
+    `VrfVerifySortition` accepts (then `verify_binds`, `seats_unique`, `credential_binds` apply). -/
+theorem server_verifySortition_binds_partial {SK PK Proof Rand : Type} (V : Vrf SK PK Proof Rand) (cdf : F64 → Nat → F64)
+    (ctx : NodeCtx) (msgRound : Nat) (pk : PK) (seed : List UInt8) (index role : Nat) (proof : Proof) (sub : Nat) (s : Stakes)
+    (hcur : ¬ (msgRound < ctx.round ∨ index < ctx.roundIndex))
+    (h : serverVerifySortition V cdf ctx msgRound pk seed index role proof sub s = .accept) :
+    verifySortition V cdf pk seed index role proof sub s = .accept := by
+  unfold serverVerifySortition at h
+  cases hv : verifySortition V cdf pk seed index role proof sub s <;>
+    simp [hv, nodeSortitionOutcome, hcur] at h ⊢
+
+/-- a VRF that rejects every proof (test instance) -/
+def noVrf : Vrf Unit Unit (List UInt8) Unit :=
+  { pkOf := id, evaluate := fun _ _ _ => (zero32, []), proofToHash := fun _ _ _ => none }
+
+/-- F-C04b on the model: a node at (round 50, index 2) accepts, for index 1, a credential whose proof does not verify
+    at all, with any claimed seat count. Replayed on the real `Server.verifySortition` by the harness on every run. -/
+theorem server_verifySortition_lenient_counterexample : ¬ server_verifySortition_binds_statement := by
+  intro h
+  have := h noVrf (fun _ _ => f64One) ⟨50, 2⟩ 50 zero32 1 2 [1, 2, 3] 1000000 ⟨2000, 20000, 100000⟩ (by decide)
+  revert this
+  decide
+
 end YouVerif.C04.Props
